@@ -225,7 +225,7 @@ func Explore(t *testing.T, sc Scenario, opt Options) Stats {
 var memFull bool
 
 // memCeiling is the resident size at which a shard stops exploring: the shards of one check that run side
-// by side must together stay below the machine's memory (the goroutines of abandoned
+// by side must together stay below three quarters of the machine's memory (the goroutines of abandoned
 // executions are never freed). At most 6 GiB, at least 1 GiB.
 func memCeiling() uint64 {
 	ceil := uint64(6 << 30)
@@ -241,7 +241,7 @@ func memCeiling() uint64 {
 				if shards < 1 {
 					shards = 1
 				}
-				if c := kb * 1024 / 2 / uint64(shards); c < ceil {
+				if c := kb * 1024 / 4 * 3 / uint64(shards); c < ceil {
 					ceil = c
 				}
 			}
